@@ -454,6 +454,7 @@ func init() {
 			// one very long history: more distinct rules than any plausible bound on the rule cache are materialised,
 			// then names holding a lookup window twice are asked (decided by the fresh-engine oracle alone)
 			emit("big\t" + fmt.Sprint(17000+g.Intn(500)))
+			emit("gaps\t" + fmt.Sprint(g.Intn(1000)))
 			// histories of web requests (Engine.MatchRequest: request + referrer) on one engine, decided by the
 			// fresh-engine oracle: referrers with the same 32-bit hash, referrers differing in letter case, repeats
 			for k := 0; k < 4; k++ {
@@ -565,6 +566,39 @@ func init() {
 				st.Add("ops", len(srcs))
 				st.Inc("web_histories")
 				return "ok" + flags, "echo\tok", pa != ""
+			}
+			if f[0] == "gaps" {
+				// the same query again after EXACTLY d-1 other queries, for d around every width a counter could have
+				// (8, 15, 16, 17 bits): the answer is the one of a fresh engine, whatever lies in between and however much
+				var k int
+				fmt.Sscan(f[1], &k)
+				name := fmt.Sprintf("gap%d.example", k)
+				ls := []listSpec{{1, false, "||" + name + "^\n0.0.0.0 host-" + name + "\n||zzzzzzzz.test^\n/qqqqqqqq/$domain=" + name + "\n"}}
+				flags := ""
+				ops := 0
+				for _, kind := range []string{"dns", "url", "web"} {
+					h := newHistEngines(ls, kind == "url")
+					q := Req{Kind: kind, Hostname: name, URL: "http://" + name + "/x", Type: 4}
+					filler := Req{Kind: kind, Hostname: "yyyyyyyy.test", URL: "http://yyyyyyyy.test/y", Type: 4}
+					fresh := newHistEngines(ls, false)
+					want, wr, _ := fresh.runOp(q)
+					fresh.cleanup()
+					h.runOp(q)
+					for _, d := range []int{255, 256, 257, 32767, 32768, 32769, 65535, 65536, 65537, 131071, 131072, 131073} {
+						for i := 0; i < d-1; i++ {
+							h.runOp(filler)
+						}
+						got, gr, _ := h.runOp(q)
+						ops += d
+						if (got != want || gr.count() != wr.count()) && flags == "" {
+							flags = fmt.Sprintf("!HISTORY-DEPENDENT:%s query answered %s instead of %s when asked again after exactly %d other queries", kind, got, want, d-1)
+						}
+					}
+					h.cleanup()
+				}
+				st.Add("ops", ops)
+				st.Inc("exact_gap_histories")
+				return "ok" + flags, "echo\tok", true
 			}
 			if f[0] == "big" {
 				var n int
@@ -810,6 +844,12 @@ func init() {
 			flags := ""
 			closed := false
 			served := 0
+			var decoys []*os.File
+			defer func() {
+				for _, d := range decoys {
+					_ = d.Close()
+				}
+			}()
 			// in every other case the cache lock is BUSY at each insert before the fault (held in read mode on behalf of
 			// another goroutine from the cache miss on, released 150 microseconds later): what a query returned must
 			// still have been materialised, so that it is served after the fault
@@ -839,6 +879,24 @@ func init() {
 						}
 					} else {
 						_ = h.storage.Close()
+						// life goes on in the process: other files are opened right after the lists were closed and receive the
+						// descriptor numbers just released.  Their content has the same layout as the lists (a rule at every
+						// old offset, in capitals, so that its text is not one of the fault-free result): nothing of it may
+						// ever show up in a result
+						for i, l := range ls {
+							b := []byte(l.content)
+							for j, c := range b {
+								if c >= 'a' && c <= 'z' {
+									b[j] = c - 32
+								}
+							}
+							dp := filepath.Join(h.dir, fmt.Sprintf("decoy%d-%d.txt", k, i))
+							if os.WriteFile(dp, b, 0o600) == nil {
+								if df, derr := os.Open(dp); derr == nil {
+									decoys = append(decoys, df)
+								}
+							}
+						}
 					}
 					closed = true
 					out = append(out, "c")
